@@ -119,6 +119,31 @@ theorem Helo_EncodeMsg_is_model (m : Helo) (pre : Bytes) :
     runEnc HeloSrc.get Helo_EncodeMsg m pre = appended pre (some m.marshal) := by
   rcases m with ⟨mt, opts⟩; simp only [Helo_EncodeMsg]; cases opts <;> sk_unfold <;> sk_fin
 
+/-! ### `MessageOptions` (all three fields `omitempty`): msgp counts the fields that will be written, remembers the ones left out in a
+bit mask, writes the map header from the count and the fields the mask allows -/
+
+theorem key_size : appendString kSize = [164, 115, 105, 122, 101] := by decide
+theorem key_chunk : appendString kChunk = [165, 99, 104, 117, 110, 107] := by decide
+theorem key_compressed : appendString kCompressed = [170, 99, 111, 109, 112, 114, 101, 115, 115, 101, 100] := by decide
+
+/-- one `simp` call with the definitions and the default simp set: the `↓reduceIte` pre-procedure decides each test before the
+branches are unfolded (unfolding first would copy the rest of the body into both branches of seven tests) -/
+macro "sk_opts" : tactic => `(tactic|
+  simp [runEnc, eexecs, eexec, OptionsSrc.get, Option.bind, Option.map, encPrim, isNilPtr, Option.isNone,
+    appended, ERes.ofOption, Options.marshal, b2n, List.append_assoc, key_size, key_chunk, key_compressed])
+
+theorem MessageOptions_MarshalMsg_is_model (o : Options) (pre : Bytes) :
+    runEnc OptionsSrc.get MessageOptions_MarshalMsg o pre = appended pre (some o.marshal) := by
+  rcases o with ⟨sz, ch, co⟩
+  simp only [MessageOptions_MarshalMsg]
+  cases sz <;> cases ch <;> cases co <;> sk_opts
+
+theorem MessageOptions_EncodeMsg_is_model (o : Options) (pre : Bytes) :
+    runEnc OptionsSrc.get MessageOptions_EncodeMsg o pre = appended pre (some o.marshal) := by
+  rcases o with ⟨sz, ch, co⟩
+  simp only [MessageOptions_EncodeMsg]
+  cases sz <;> cases ch <;> cases co <;> sk_opts
+
 /-! ### EntryList encoders -/
 
 /-- the loop appends the entries' encodings one after another; the first entry that cannot be encoded ends the call with its error -/
